@@ -131,8 +131,9 @@ def exact(metric, T, X, Y, Z, Lambda=0.0):
         * np.sqrt(-out["gdet"])
     eps_uudd = np.einsum('ac...,bd...,abef...->cdef...', c4["gup"],
                          c4["gup"], eps)
-    out["B_n"] = 0.5 * np.einsum('b...,f...,abcd...,cdef...->ae...',
-                                 n, n, C, eps_uudd)
+    Cn = np.einsum('b...,abcd...->acd...', n, C)
+    en = np.einsum('f...,cdef...->cde...', n, eps_uudd)
+    out["B_n"] = 0.5 * np.einsum('acd...,cde...->ae...', Cn, en)
     return out
 
 
@@ -213,7 +214,7 @@ def bssn_exact(ex):
 def evolved_fields(metric, t, X, Y, Z):
     """The 3+1 / BSSNOK fields whose coordinate-time derivative aurel offers,
     evaluated exactly at time t (used with dt_exact)."""
-    g, dg, _ = metric(t, X, Y, Z)
+    g, dg, _ = metric(t, X, Y, Z, order=1)
     s = split31(g, dg)
     gam, gamu = s["gamma"], s["gammaup"]
     dgam = dg[1:, 1:, 1:]
